@@ -1,9 +1,11 @@
 (* C05  Only the rightful party can act, and a message debits only its signer.
    Statements only; the proofs are in Proofs/StepSpecs_auth.v, which also defines
      signer o       the account whose signature the message o carries (None for a definition,
-                    a call from another module and EndBlock),
+                    a call from another module, the keeper API driven by the module that owns a
+                    context -- OModUpdate / OModPause / OModStart / OModKill -- and EndBlock),
      rightful cfg s o   who may send o in state s (binding owner; owner of the provider;
-                    consumer of a context no module owns; provider of the active request),
+                    consumer of a context no module owns; provider of the active request;
+                    for the four keeper-API ops: the consumer named is the context's own),
      max_debit o    the deposit a bind/update/enable adds, the amount a transfer sends, else 0. *)
 From Coq Require Import List ZArith Bool.
 From SVC Require Import Base.AMap Base.Res Base.Dec Model.Types Model.Pricing
@@ -96,6 +98,33 @@ Theorem C05_auth_update_ctx : forall cfg s c who provs cap timeout freq total ok
   exists rc, get c (ctxs s) = Some rc /\ c_cons rc = who /\ c_mod rc = 0.
 Proof. exact StepSpecs_auth.C05_auth_update_ctx. Qed.
 Print Assumptions C05_auth_update_ctx.
+
+(* the keeper API driven by the module that owns the context (CheckAuthority(..., false)): the
+   context exists and the consumer the module names is the context's own.  These ops carry no
+   signature (signer = None), so by C05_only_signer_debited they lower no ordinary account. *)
+Theorem C05_auth_mod_update : forall cfg s c who provs thr cap timeout freq total s',
+  handle cfg s (OModUpdate c who provs thr cap timeout freq total) = Ok s' ->
+  exists rc, get c (ctxs s) = Some rc /\ c_cons rc = who.
+Proof. exact StepSpecs_auth.C05_auth_mod_update. Qed.
+Print Assumptions C05_auth_mod_update.
+
+Theorem C05_auth_mod_pause : forall cfg s c who s',
+  handle cfg s (OModPause c who) = Ok s' ->
+  exists rc, get c (ctxs s) = Some rc /\ c_cons rc = who.
+Proof. exact StepSpecs_auth.C05_auth_mod_pause. Qed.
+Print Assumptions C05_auth_mod_pause.
+
+Theorem C05_auth_mod_start : forall cfg s c who s',
+  handle cfg s (OModStart c who) = Ok s' ->
+  exists rc, get c (ctxs s) = Some rc /\ c_cons rc = who.
+Proof. exact StepSpecs_auth.C05_auth_mod_start. Qed.
+Print Assumptions C05_auth_mod_start.
+
+Theorem C05_auth_mod_kill : forall cfg s c who s',
+  handle cfg s (OModKill c who) = Ok s' ->
+  exists rc, get c (ctxs s) = Some rc /\ c_cons rc = who.
+Proof. exact StepSpecs_auth.C05_auth_mod_kill. Qed.
+Print Assumptions C05_auth_mod_kill.
 
 (* all message kinds at once *)
 Theorem C05_authority : forall cfg s o s', handle cfg s o = Ok s' -> rightful cfg s o.
